@@ -493,6 +493,8 @@ def gen_c16(seed, params):
         # the patch text ends in another section (a string or table of the
         # patch's own): the epilogue still belongs behind the patch's code
         sc["tail_section"] = True
+    if sc.get("prop") == "C16" and sc["constraints"]["reads_registers"] and sc["constraints"]["scratch_registers"] and streams.get("gen.knob").random() < 0.3:
+        sc["decoy"] = True
     return sc
 
 
@@ -954,6 +956,18 @@ def execute_c16(sc, params, stats):
     if func.get("orphan_after"):
         block, off = w.b1, 0
         stats["probe.orphan_block_after_nonleaf"] += 1
+    if sc.get("decoy"):
+        # another patch of the same rewrite, applied just before, whose
+        # constraints differ only in that it reads no registers: what it was
+        # given must not leak into the patch under test
+        import dataclasses
+
+        class Decoy(Patch):
+            def get_asm(self, ctx):
+                return "nop"
+
+        ctx.insert_at(block, off, Decoy(dataclasses.replace(constraints, reads_registers=set())))
+        stats["knob.decoy"] += 1
     ctx.insert_at(block, off, patch)
     del _CAPTURE[:]
     satisfiable = cons["scratch_registers"] <= len(available_scratch(abi, cons))
@@ -1645,6 +1659,8 @@ def shrink_candidates(prop, sc):
         yield mod(lambda c: c.pop("debug_log"))
     if sc.get("tail_section"):
         yield mod(lambda c: c.pop("tail_section"))
+    if sc.get("decoy"):
+        yield mod(lambda c: c.pop("decoy"))
     # signals
     if sc["signals"]:
         yield mod(lambda c: c.__setitem__("signals", []))
